@@ -9,6 +9,7 @@ from .. import core_replay, pool, tlc
 from ..checklib import Check, MachineryError
 
 INVS = {
+    "C03": ["C04inert"],
     "C04": ["C04inert"],
     "C05": ["C05fixiff", "C05fixrepairs", "C05create", "C05update", "C05trim", "C05trimkeeps", "C04inert"],
     "C06": ["C06"],
@@ -118,10 +119,88 @@ def core_check(pid: str, *, f_filter=None, cfgs=("A",), quick_stride=8, quick_ke
     return chk
 
 
+def chain_check(pid: str, mode: str):
+    """C08 / C09: histories of sessions emitted by TLC (Mode chain8 / chain9), every session of a history
+    starting from the text that the previous real session wrote"""
+    chk = Check(pid, "model_checking")
+    if chk.replay:
+        return replay_file(chk)
+    stride_mc = 4 if chk.quick else 1
+    stride_emit = (16 if mode == "chain8" else 8) if chk.quick else 2
+    keep = (12 if mode == "chain8" else 4) if chk.quick else (4 if mode == "chain8" else 1)
+    with cf.ThreadPoolExecutor(2) as ex:
+        f_mc = ex.submit(run_mc, chk, "Core_A_mc.cfg", INVS[pid], {"Stride": stride_mc, "Offset": chk.seed % stride_mc}, "mc")
+        f_em = ex.submit(tlc.run_tlc, "MC_Core", "Core_A_emit.cfg", timeout=1500,
+                         overrides={"Stride": stride_emit, "Offset": chk.seed % stride_emit, "Mode": mode})
+    res = f_mc.result()
+    chk.add_tlc(res, "mc Core_A (%s)" % ",".join(INVS[pid]))
+    if not res.ok:
+        chk.spec_violation(res, "mc Core_A")
+    tlc.cleanup(res)
+    res = f_em.result()
+    chk.add_tlc(res, "emit Core_A (%s)" % mode)
+    try:
+        if mode == "chain8":
+            runs = core_replay.load_chain8(res.out_dir, seed=chk.seed, keep_every=keep)
+            worker, size = core_replay._worker_chain8, 20
+        else:
+            runs = core_replay.load_chain9(res.out_dir, seed=chk.seed, keep_every=keep)
+            worker, size = core_replay._worker_chain9, 6
+    finally:
+        tlc.cleanup(res)
+    if not runs:
+        raise MachineryError("no histories emitted by TLC")
+    by_id = {r["id"]: r for r in runs}
+    results = pool.parallel_map(worker, [(c, chk.seed, None) for c in pool.chunks(runs, size)])
+    errors = 0
+    for chunk in results:
+        for r in chunk:
+            run = by_id[r["id"]]
+            if "error" in r:
+                errors += 1
+                if errors <= 3:
+                    print("driver error on %s:\n%s" % (r["id"], r["error"]))
+                continue
+            n = 1 if mode == "chain8" else 1 + r["npaths"]
+            chk.count(n, r["id"])
+            chk.validated(n)
+            if len(chk.cov["samples"]) < 3 and run["h"] % 5 == 0:
+                if mode == "chain8":
+                    chk.sample({"kind": "history of sessions", "ops": run["ops"], "srcs": run["srcs"], "prog": run["prog"],
+                                "approved_per_session": [c["F"] for c in run["chain"]],
+                                "expected_sources": [c["srcs"] for c in run["chain"]]})
+                else:
+                    chk.sample({"kind": "orders of approval", "ops": run["ops"], "srcs": run["srcs"], "prog": run["prog"],
+                                "orders": [[c["F"] for c in ch] for ch in run["chains"]],
+                                "all_at_once": [c["F"] for c in run["atonce"]], "final": run["final"],
+                                "confluent_in_spec": run["confluent"]})
+            for m in r["mism"]:
+                sig = mismatch_sig(m, run)
+                if m["clause"] == "order-matters":
+                    sig["spec_confluent"] = m["detail"]["spec_confluent"]
+                chk.mismatch(m["clause"], sig,
+                             {"kind": mode, "run": run, "seed": chk.seed, "mismatch": m, "texts": r.get("texts")},
+                             props=m["props"])
+    if errors:
+        raise MachineryError("%d replay jobs crashed in the harness" % errors)
+    return chk
+
+
 def replay_file(chk: Check):
     import json
     data = json.loads(open(chk.replay).read())
     rp = data["replay"]
+    if rp.get("kind") in ("chain8", "chain9"):
+        w = core_replay._worker_chain8 if rp["kind"] == "chain8" else core_replay._worker_chain9
+        r = w(([rp["run"]], rp["seed"], None))[0]
+        mine = [m for m in r.get("mism", []) if chk.pid in m["props"]]
+        for t in (r.get("texts") or []):
+            print(t)
+            print("-----")
+        for m in mine:
+            print("MISMATCH", json.dumps(m)[:3000])
+        print("reproduced" if mine else "not reproduced")
+        return 1 if mine else 0
     if rp.get("kind") != "core-run":
         print(json.dumps(rp, indent=1)[:4000])
         return 1
